@@ -53,7 +53,7 @@ def build(carrier, name, ds):
     from odfdo.note import Annotation, AnnotationEnd
     from odfdo.variable import UserDefined, UserFieldDecl, VarDecl, VarSet
 
-    doc = Document("text" if carrier not in ("table", "named_range", "draw_page") else ("spreadsheet" if carrier != "draw_page" else "presentation"))
+    doc = Document("text" if carrier not in ("table", "named_range", "named_range_table", "draw_page") else ("spreadsheet" if carrier != "draw_page" else "presentation"))
     body = doc.body
     checks = []
     names = ds + [name]  # decoys first: a sloppy lookup returns a decoy
@@ -74,6 +74,14 @@ def build(carrier, name, ds):
             t.set_named_range(n, "A1:B2")
         one("get_named_range", lambda d: d.body.get_named_range(name), "table:name")
         one("Table.get_named_range", lambda d: d.body.get_table(0).get_named_range(name), "table:name")
+    elif carrier == "named_range_table":
+        body.clear()
+        for i, n in enumerate(names):
+            t = Table(n, width=2, height=2)
+            body.append(t)
+            t.set_named_range(f"rng_{i}", "A1:B2")
+        one("get_named_ranges(table_name=)", lambda d: d.body.get_table(name=name).get_named_ranges(table_name=name), "$table_name")
+        one("get_named_ranges(table_name=[..])", lambda d: d.body.get_table(name=name).get_named_ranges(table_name=[name]), "$table_name")
     elif carrier == "style":
         for n in names:
             doc.insert_style(Style("paragraph", name=n, display_name="D" + n))
@@ -196,13 +204,13 @@ def build(carrier, name, ds):
     return doc, checks
 
 
-CARRIERS = ["table", "named_range", "style", "style_auto", "bookmark", "bookmark_api", "refmark", "frame", "draw_page", "variable",
+CARRIERS = ["table", "named_range", "named_range_table", "style", "style_auto", "bookmark", "bookmark_api", "refmark", "frame", "draw_page", "variable",
             "user_field", "note", "annotation", "link", "section", "change", "manifest", "meta"]
 
 
 def run_case(case, ctx):
     carrier, name = case["carrier"], case["name"]
-    if carrier in ("table", "named_range"):
+    if carrier in ("table", "named_range", "named_range_table"):
         # these setters store the stripped name: the stored form is the identifier
         name = name.strip()
         if not name:
@@ -245,6 +253,11 @@ def run_case(case, ctx):
                 continue
             if label == "referenced_text":
                 ctx.check(got == "y", ("C14", carrier, "wrong-object", label), f"referenced_text of {name + 'r'!r} = {got!r} ({phase})", case)
+                continue
+            if isinstance(got, list) and qn == "$table_name":
+                ids = [g.table_name for g in got]
+                ctx.check(len(got) == 1 and ids == [name], ("C14", carrier, "wrong-object", label),
+                          f"{label}({name!r}) returned ranges of tables {ids!r} with decoy tables {ds!r} present ({phase})", case)
                 continue
             if isinstance(got, list):
                 ids = [attr(g, qn) for g in got]
